@@ -18,10 +18,10 @@ package couchbase
 //@ loop 1 unroll 6
 //@ ensures.bounded[C19] 1 <= n && n <= 5
 //@ ensures.stop_on_success[C19] forall i int :: 0 <= i && i < n - 1 ==> dret(couchbase.Client.Ping, i, 1) != nil
-//@ ensures.returns_on[C19,C13] dret(couchbase.Client.Ping, n - 1, 1) == nil || (n < 5 && dcalls(select.case) == n && darg(select.case, n - 1, index) == 0)
-//@ ensures.no_ping_after_cancel[C19,C13] forall i int :: 0 <= i && i < dcalls(select.case) - 1 ==> darg(select.case, i, index) == 1
+//@ ensures.returns_on[C19,C13] dret(couchbase.Client.Ping, n - 1, 1) == nil || (n < 5 && dcalls(select.case) == n && darg(select.case, n - 1, ch) == uninterp("ctx.done", ctx))
+//@ ensures.no_ping_after_cancel[C19,C13] forall i int :: 0 <= i && i < dcalls(select.case) - 1 ==> darg(select.case, i, ch) != uninterp("ctx.done", ctx)
 //@ ensures.waits[C19,C13] dcalls(select.case) <= n && dcalls(select.case) >= n - 1
-//@ onpanic.five[C19] dcalls(couchbase.Client.Ping) == 5 && (forall i int :: 0 <= i && i < 5 ==> dret(couchbase.Client.Ping, i, 1) != nil) && dcalls(select.case) == 4 && (forall i int :: 0 <= i && i < 4 ==> darg(select.case, i, index) == 1)
+//@ onpanic.five[C19] dcalls(couchbase.Client.Ping) == 5 && (forall i int :: 0 <= i && i < 5 ==> dret(couchbase.Client.Ping, i, 1) != nil) && dcalls(select.case) == 4 && (forall i int :: 0 <= i && i < 4 ==> darg(select.case, i, ch) != uninterp("ctx.done", ctx))
 //@ panics.never_on_success false
 //@ modifies calls(couchbase.Client.Ping), calls(select.case), chan(uninterp("ctx.done", ctx))
 
@@ -39,7 +39,7 @@ package couchbase
 //@ loop 1
 //@   invariant.same_ctx[C19] forall i int :: old(ncalls("couchbase.(*healthCheck).performHealthCheck")) <= i && i < ncalls("couchbase.(*healthCheck).performHealthCheck") ==> argat("couchbase.(*healthCheck).performHealthCheck", i, ctx) == ctx && argat("couchbase.(*healthCheck).performHealthCheck", i, h) == h
 //@   modifies calls(couchbase.Client.Ping), calls(select.case), chan(uninterp("ctx.done", ctx)), chan(ticker.C), calls("couchbase.(*healthCheck).performHealthCheck")
-//@ ensures.stopped[C19,C13] darg(select.case, dcalls(select.case) - 1, index) == 0
+//@ ensures.stopped[C19,C13] darg(select.case, dcalls(select.case) - 1, ch) == uninterp("ctx.done", ctx)
 //@ modifies calls(couchbase.Client.Ping), calls(select.case), chan(uninterp("ctx.done", ctx)), calls("couchbase.(*healthCheck).performHealthCheck")
 
 //@ func (*healthCheck).Stop
